@@ -317,6 +317,15 @@ func (ig *ingest) cacheInsert(e *Effect) {
 	okForm := val.Op == "array" || (val.Args[0].Op == "lookup" && val.Args[0].Args[0].Key() == Field(rmf, "futureCache").Key() && ev.Same(val.Args[0].Args[1], key))
 	ev.Verdict("F4.form", props("C17"), "cache values are built as []{m} or append(old[key], m) (order preserving)", "net", okForm, "value form "+val.Key())
 	H := hdr(m)
+	// what is parked is the received message itself (the value the converter made of the raw bytes), not a rebuilt copy
+	// whose fields may differ from what will be delivered on the direct path
+	same := m.Op == "call" && strings.HasSuffix(m.Name, "ToConsensusMessage")
+	if !same {
+		if n := ev.Norm(m); n.Op == "call" && strings.HasSuffix(n.Name, "ToConsensusMessage") {
+			same = true
+		}
+	}
+	ev.Verdict("F2.same", props("C17", "C20", "C08"), "the message parked in the future cache is the received message as converted from its raw form (block included), the same value the direct path would have delivered", "net", same, "cached value is "+PP(m))
 	ev.Require("F2.own", props("C08", "C17"), "a cached message is not the node's own", "net", Ne(mid(snd(m)), Field(rmf, "myMemberId")))
 	ev.Require("F2.instance", props("C08", "C17", "C03", "C07", "C01", "C11", "C04"), "a cached message belongs to this instance", "net", Eq(inst(H), Field(rmf, "instanceId")))
 	ev.Require("F2.future", props("C08", "C17"), "a cached message is for a future height", "net", Lt(k.SHeight, ht(H)))
